@@ -65,14 +65,15 @@ def make_scenario(rng, knobs):
             for name in gen.process_names(prog_name, prog):
                 namespec = f'{app_name}:{name}'
                 if prog.get('wait_exit'):
-                    kind = rng.choice(['exit_expected'] * 4 + ['exit_unexpected', 'normal', 'crash_early'])
+                    kind = rng.choice(knobs.get('wait_exit_behaviours') or
+                                      ['exit_expected'] * 4 + ['exit_unexpected', 'normal', 'crash_early'])
                 else:
                     kind = rng.choice(kinds)
                 if kind in ('no_file', 'crash_early', 'fork_error', 'exit_unexpected') and app['managed'] and \
                         prog.get('running_failure_eff') in ('RESTART_APPLICATION', 'RESTART_PROCESS') and \
                         rng.random() < 0.85:
                     kind = 'normal'   # a program that always fails with a RESTART strategy is a restart storm
-                per_instance = rng.random() < 0.2
+                per_instance = rng.random() < 0.2 and not knobs.get('same_behaviour_everywhere')
                 for spec in specs:
                     k = rng.choice(kinds) if per_instance else kind
                     behaviours[f"{spec['nick']}/{namespec}"] = make_behaviour(rng, k, prog)
